@@ -512,7 +512,24 @@ def check_tool_paths(ctx, tool):
             kept = p.outcome.kind == 'return' and p.outcome.expr is not None \
                 and any(isinstance(x, ast.Name) and x.id in elems
                         for x in ast.walk(tfl.expand(p.outcome.expr)))
-            if not adds and not stores and not yields and not kept:
+            # ... or it is handed on to the worker itself (the nested
+            # mapping is flattened into the same result by the recursion)
+            acc_params = {n_.value.id for n_ in walk_no_nested(g.node)
+                          if isinstance(n_, ast.Subscript) and isinstance(
+                              n_.ctx, ast.Store) and isinstance(
+                                  n_.value, ast.Name)
+                          and n_.value.id in g.params}
+            handed = any(
+                e.kind == 'call' and prog.callee_of(g, e.node) in (
+                    [g, flat] + workers) and any(
+                        isinstance(x, ast.Name) and x.id in elems
+                        for a in e.node.args
+                        for x in ast.walk(tfl.expand(a))) and any(
+                            isinstance(a, ast.Name) and a.id in acc_params
+                            for a in e.node.args)
+                for e in p.events)
+            if not adds and not stores and not yields and not kept \
+                    and not handed:
                 dropped = p
     ctx.ob('C19.TARGET', dropped is None and n > 0, ctx.where(
         flat.module, flat.node), flat.qual,
